@@ -66,8 +66,8 @@ def _ray2d(z, x, zgrad, xgrad, zend, xend, zsrc, xsrc, stepsize, max_step, honor
                 j = np.searchsorted(x, pcur[1], side="right") - 1
                 lower[0] = z[max(i - 1, 0)] if pcur[0] == z[i] else z[i]
                 lower[1] = x[max(j - 1, 0)] if pcur[1] == x[j] else x[j]
-                upper[0] = z[i + 1]
-                upper[1] = x[j + 1]
+                upper[0] = z[min(i + 1, nz - 1)]
+                upper[1] = x[min(j + 1, nx - 1)]
 
                 ray[count] = pcur.copy()
                 count += 1
@@ -85,6 +85,9 @@ def _ray2d(z, x, zgrad, xgrad, zend, xend, zsrc, xsrc, stepsize, max_step, honor
 
         if count >= max_step:
             raise RuntimeError("maximum number of steps reached")
+
+    if count >= max_step:
+        raise RuntimeError("maximum number of steps reached")
 
     ray[count] = np.array([zsrc, xsrc], dtype=np.float64)
 
